@@ -408,6 +408,11 @@ def main(argv):
                 skipped[c.qual] = f"engine: unsupported on concrete data: {e}"
                 break
             except Exception as e:                      # noqa: BLE001
+                frames = traceback.extract_tb(e.__traceback__)
+                if frames and "/contracts/" in frames[-1].filename.replace("\\", "/") or (len(frames) > 1 and "/contracts/" in frames[-2].filename):
+                    # a specification helper (loop invariant) written for symbolic lists met a concrete one: nothing about the interpreter
+                    skipped[c.qual] = f"specification helper not applicable to concrete data: {type(e).__name__}: {e}"
+                    break
                 bad.append((c.qual, args, real, f"engine crashed: {type(e).__name__}: {e}"))
                 break
             if kind == "nondeterministic":
